@@ -16,7 +16,8 @@ OBLIGATIONS = ['mgm_movers_independent_partial', 'mgm_round_monotone_partial', '
                'mgm2_coordinated_gain_error', 'mgm2_coordinated_worsening_bound', 'mgm2_pair_state_partial',
                'mgm2_pair_move_cost_partial',
                'mgm2_refines_rounds', 'mgm2_payload_invariant', 'mgm2_messages_refine',
-               'mgm2_async_unilateral_monotone', 'mgm2_async_unilateral_movers', 'mgm2_async_pair_move_cost']
+               'mgm2_async_unilateral_monotone', 'mgm2_async_unilateral_movers', 'mgm2_async_pair_move_cost',
+               'mgm2_async_movers']
 N_QUICK, N_THOROUGH = 300, 6000
 PARALLEL = 8
 SHARD = 40
@@ -48,7 +49,7 @@ MODELLED = ("handler models of mgm.py / mgm2.py compared on full event traces, f
             "every run (r2check_case: mgm2_next iterated from the observed initial assignment with the observed "
             "per-node draws equals the observed assignment at every cycle boundary of the real execution)")
 META = dict(
-    level_text=("Partial proof (Coq). Proved for every DCOP (n-ary constraints, variables' own costs), min and max, all draws: one complete MGM cycle as a function on assignments never worsens the global cost (constraints + own costs) and no two constraint-sharing variables both move; lifted to any number of cycles. ALSO proved (deepening, P_Mgm3*.v): the asynchronous handler model computes exactly this cycle function at every cycle boundary under EVERY schedule of starts and FIFO deliveries (mgm_refines_rounds: a computation with cycle counter c holds the value of the synchronous reference run after c-1 rounds), hence between any reachable configuration where all computations have completed j cycles and any where they have completed j+1 the global cost does not get worse and no two constraint-sharing variables both changed (mgm_async_monotone, mgm_async_movers_independent) - the full MGM statement. The refinement is additionally checked on every run (round-level model replayed against the cycle-boundary assignments of real asynchronous executions, plus the full-trace correspondence of the handler model). MGM2: the handler model is tied to the code by the same full-trace correspondence; the property is refuted for coordinated moves (theorem mgm2_monotone_refuted, known finding C03-mgm2-coordinated-gain). Deepening 2: a round-level MGM2 function (mgm2_next, checked against the cycle-boundary assignments of every real MGM2 run, refinement to the handlers not proved) with guarded theorems for all inputs: a round in which no node commits to a coordinated move never worsens the global cost and moves no two constraint-sharing variables (mgm2_unilateral_*_partial); the defect is quantified exactly: the gain _find_best_offer claims = true decrease of the global cost + current cost of the constraints shared by the pair + the acceptor's own cost of its new value (mgm2_coordinated_gain_error), hence the cost after a pair move (mgm2_coordinated_worsening_bound, mgm2_pair_move_cost_partial). Deepening 3 (P_Mgm2pA/B/C.v): the refinement of the asynchronous MGM2 handlers to mgm2_next is now PROVED for every schedule (mgm2_refines_rounds, mgm2_payload_invariant: every field of every started computation and every pending value/offer/answer/gain/go message is the one of the synchronous reference run; any fuel >= 10*degree+2 for the nested re-dispatch), so the guarded statements hold of real executions between any two reachable configurations at consecutive cycle boundaries: without commitment the cost does not get worse and no two constraint-sharing variables both change (mgm2_async_unilateral_monotone, mgm2_async_unilateral_movers); when exactly an accepted pair moves the cost changes by -announced gain + shared cost + acceptor's own new-value cost (mgm2_async_pair_move_cost)."),
+    level_text=("Partial proof (Coq). Proved for every DCOP (n-ary constraints, variables' own costs), min and max, all draws: one complete MGM cycle as a function on assignments never worsens the global cost (constraints + own costs) and no two constraint-sharing variables both move; lifted to any number of cycles. ALSO proved (deepening, P_Mgm3*.v): the asynchronous handler model computes exactly this cycle function at every cycle boundary under EVERY schedule of starts and FIFO deliveries (mgm_refines_rounds: a computation with cycle counter c holds the value of the synchronous reference run after c-1 rounds), hence between any reachable configuration where all computations have completed j cycles and any where they have completed j+1 the global cost does not get worse and no two constraint-sharing variables both changed (mgm_async_monotone, mgm_async_movers_independent) - the full MGM statement. The refinement is additionally checked on every run (round-level model replayed against the cycle-boundary assignments of real asynchronous executions, plus the full-trace correspondence of the handler model). MGM2: the handler model is tied to the code by the same full-trace correspondence; the property is refuted for coordinated moves (theorem mgm2_monotone_refuted, known finding C03-mgm2-coordinated-gain). Deepening 2: a round-level MGM2 function (mgm2_next, checked against the cycle-boundary assignments of every real MGM2 run, refinement to the handlers not proved) with guarded theorems for all inputs: a round in which no node commits to a coordinated move never worsens the global cost and moves no two constraint-sharing variables (mgm2_unilateral_*_partial); the defect is quantified exactly: the gain _find_best_offer claims = true decrease of the global cost + current cost of the constraints shared by the pair + the acceptor's own cost of its new value (mgm2_coordinated_gain_error), hence the cost after a pair move (mgm2_coordinated_worsening_bound, mgm2_pair_move_cost_partial). Deepening 3 (P_Mgm2pA/B/C.v): the refinement of the asynchronous MGM2 handlers to mgm2_next is now PROVED for every schedule (mgm2_refines_rounds, mgm2_payload_invariant: every field of every started computation and every pending value/offer/answer/gain/go message is the one of the synchronous reference run; any fuel >= 10*degree+2 for the nested re-dispatch), so the guarded statements hold of real executions between any two reachable configurations at consecutive cycle boundaries: without commitment the cost does not get worse and no two constraint-sharing variables both change (mgm2_async_unilateral_monotone, mgm2_async_unilateral_movers); in ANY cycle two constraint-sharing variables that both changed are the two partners of one committed pair that both said go (mgm2_async_movers, full); when exactly an accepted pair moves the cost changes by -announced gain + shared cost + acceptor's own new-value cost (mgm2_async_pair_move_cost)."),
     level_note=("Trusted: Coq kernel/vm_compute, M_Mgm.v / M_Mgm2.v + Net.v as renderings of the Python code, the "
                 "thread-free netdriver, integer costs inside int32."),
     technique="Coq proof over an executable round-level model + round-level and full-trace correspondence",
